@@ -1,12 +1,12 @@
 CONSTANTS
-  Chans <- Ch12
+  Chans <- Ch1
   BadCh = 9
   MaxPay = 2
   Hdr = 1
-  RecvCap <- Cap12
-  QCap = 2
+  RecvCap <- Cap1
+  QCap = 1
   MsgLens <- Lens03
-  MaxMsgs = 2
+  MaxMsgs = 1
   MaxInject = 1
   InjectKinds <- InjPing
   Senders <- Both
